@@ -134,6 +134,8 @@ def gen_case(seed: int, prop: str, tier: str) -> dict:
         guids = [WH.guid_str(rng.getrandbits(64)) for _ in range(nshot)]
         case.update(cfgs=cfgs, guids=guids, topmode=rng.choice(["none", "present"]), types=[rng.choice(["Compressed", "Compressed", "Plain"]) for _ in range(nshot)],
                     fname="".join(ch for ch in _word(rng, 20).replace("/", "_") if ord(ch) >= 32), shuffle=rng.getrandbits(8))
+    if rng.random() < 0.15:
+        case["eio_open"] = [rng.choice([1, 2, 3, 4, 5, 7, 10, 15]), rng.choice(["eio", "eio", "eio_partial"])]
     return case
 
 
@@ -158,6 +160,18 @@ def run_case(case: dict) -> RunResult:
     def v(klass, detail):
         return Violation(prop, klass, log.seq, detail, dict(sig, klass=klass))
 
+    armed = case.get("eio_open")
+    if armed:
+        # fault-injecting configuration: every handle created during this run fails its k-th read call once (a transient error
+        # while the image is opened or its metadata is looked at). Open / inspection may fail; whatever is exposed without an
+        # exception must still equal what the file stores.
+        real_on = world.on_handle
+
+        def arming(h, spath, _k=armed[0], _kind=armed[1]):
+            real_on(h, spath)
+            h.eio_at, h.fault_kind = _k, _kind
+
+        world.on_handle = arming
     with world.fs, monitored():
         try:
             with metered(STEP_LIMIT, "loop", world.step_allowance(STEP_LIMIT, 2.0, 1 << 22)):
@@ -286,14 +300,22 @@ def run_case(case: dict) -> RunResult:
         except Exception as e:
             tb = traceback.extract_tb(e.__traceback__)[-1]
             log.add("acquirer", "open+inspect", kind, "raised:" + type(e).__name__)
-            viol = v("raised:" + type(e).__name__, f"open/inspect raised {type(e).__name__}: {e} at {tb.filename.rsplit('/', 1)[-1]}:{tb.lineno}"[:300])
+            if armed and world.io_faults_fired():
+                bad.clear()
+                probes["meta.failed_on_injected_io_fault"] = 1
+            else:
+                viol = v("raised:" + type(e).__name__, f"open/inspect raised {type(e).__name__}: {e} at {tb.filename.rsplit('/', 1)[-1]}:{tb.lineno}"[:300])
     if viol is None and bad:
         field = bad[0].split(":")[0].split("[")[0]
         viol = v("meta:" + field, "; ".join(bad[:3]))
+    if armed:
+        world.on_handle = real_on
+        probes["meta.config_io_fault_at_open"] = 1
     res = RunResult(log, viol)
     res.keys = keys
     res.nontrivial_keys = set(keys)
     res.probes.update(probes)
+    res.faults.update(world.faults_fired)
     res.probes["meta.kind_" + kind] = 1
     return res
 
